@@ -899,7 +899,7 @@ def f6_defs(tier):
     out.append(("cleanup-publishes-output", WF({
         "a": T([N(S, ["c", "fail"])]),
         "c": T([N(S, "noop", publish=[("report", "cleaned")])])},
-        output=[{"report": "<% ctx().get(report) %>"}]), S_ONLY))
+        output=[{"report": "<% ctx(report) %>"}]), S_ONLY))
     # a later sibling transition reads a variable an earlier sibling transition publishes (no leak between them)
     out.append(("sibling-reads-sibling", WF({
         "a": T([N(S, "b", publish=[("v", RES)]), N(S, "c", publish=[("u", "<% ctx(v) %>")])]),
